@@ -148,6 +148,7 @@ class Fn:
         self.rec = rec
         self.unit = unit
         self.name = rec['name']
+        self.sname = strip_targs(rec['name'])
         self.mn = rec.get('mn', '')
         self.file = rec.get('file', '')
         self.line = rec.get('line', 0)
@@ -423,6 +424,8 @@ class DB:
                 if f.mn:
                     self.by_mn.setdefault(f.mn, f)
                 self.by_name.setdefault(f.name, []).append(f)
+                if f.sname != f.name:
+                    self.by_name.setdefault(f.sname, []).append(f)
             for r in d['records']:
                 self.records.setdefault(r['key'], r)
             for e in d['enums']:
